@@ -63,7 +63,14 @@ type Options struct {
 	SelectCost int
 	// OnExec is called for every finished execution (coverage bookkeeping).
 	OnExec func(r *Result)
+	// Claim, if set, partitions the exploration between cooperating processes: the subtrees
+	// below the first-level alternatives are grouped into chunks and a chunk is explored only
+	// by the process whose Claim(chunk) returns true; Claim(-1) decides who accounts for the
+	// root execution. Every process runs the root execution itself to learn the alternatives.
+	Claim func(chunk int) bool
 }
+
+const claimChunk = 2
 
 // TraceKey canonicalises the observation trace of an execution.
 func TraceKey(r *Result) string {
@@ -111,8 +118,12 @@ func ExploreScenario(sc *Scenario, opt Options) (*Stats, []Found, error) {
 	type item struct {
 		prefix []int
 		ns     []int // expected option counts along the prefix (replay validation)
+		chunk  int   // >0: first-level subtree, explored only if chunk-1 is claimed
 	}
 	stack := []item{{}}
+	claimed := map[int]bool{}
+	rootMine := opt.Claim == nil || opt.Claim(-1)
+	level1 := 0
 	for len(stack) > 0 {
 		if (opt.MaxExec > 0 && st.Executions >= opt.MaxExec) || (!opt.Deadline.IsZero() && st.Executions%64 == 0 && time.Now().After(opt.Deadline)) {
 			st.Complete = false
@@ -121,9 +132,23 @@ func ExploreScenario(sc *Scenario, opt Options) (*Stats, []Found, error) {
 		}
 		it := stack[len(stack)-1]
 		stack = stack[:len(stack)-1]
+		if it.chunk > 0 && opt.Claim != nil {
+			ok, seen := claimed[it.chunk]
+			if !seen {
+				ok = opt.Claim(it.chunk - 1)
+				claimed[it.chunk] = ok
+			}
+			if !ok {
+				continue
+			}
+		}
 		r := RunOnce(sc, it.prefix, opt.SelectCost)
-		st.Executions++
-		st.Points += int64(r.Steps)
+		isRoot := len(it.prefix) == 0
+		count := !isRoot || rootMine
+		if count {
+			st.Executions++
+			st.Points += int64(r.Steps)
+		}
 		if r.Diverged != "" {
 			return st, found, fmt.Errorf("scenario %s: replay diverged: %s (prefix %v)", sc.Name, r.Diverged, it.prefix)
 		}
@@ -135,25 +160,27 @@ func ExploreScenario(sc *Scenario, opt Options) (*Stats, []Found, error) {
 				return st, found, fmt.Errorf("scenario %s: replay diverged at decision %d: %d options, expected %d (prefix %v)", sc.Name, i, r.Decisions[i].N, n, it.prefix)
 			}
 		}
-		if r.Deadlock {
-			st.Deadlocks++
-		}
-		if r.StepLimit {
-			st.StepLimits++
-		}
-		if len(r.Decisions) > st.MaxDepth {
-			st.MaxDepth = len(r.Decisions)
-		}
-		st.Decisions += int64(len(r.Decisions) - len(it.prefix))
 		key := TraceKey(r)
-		st.Traces[key]++
-		if st.Traces[key] == 1 && len(st.Sample) < 3 {
-			st.Sample = append(st.Sample, fmt.Sprintf("choices=%v events=%s", chosen(r), strings.Join(EventNames(r), "; ")))
+		if count {
+			if r.Deadlock {
+				st.Deadlocks++
+			}
+			if r.StepLimit {
+				st.StepLimits++
+			}
+			if len(r.Decisions) > st.MaxDepth {
+				st.MaxDepth = len(r.Decisions)
+			}
+			st.Decisions += int64(len(r.Decisions) - len(it.prefix))
+			st.Traces[key]++
+			if st.Traces[key] == 1 && len(st.Sample) < 3 {
+				st.Sample = append(st.Sample, fmt.Sprintf("choices=%v events=%s", chosen(r), strings.Join(EventNames(r), "; ")))
+			}
+			if opt.OnExec != nil {
+				opt.OnExec(r)
+			}
 		}
-		if opt.OnExec != nil {
-			opt.OnExec(r)
-		}
-		if sc.Check != nil {
+		if sc.Check != nil && count {
 			for _, is := range sc.Check(r) {
 				k := is.Clause + "|" + is.Disc
 				if seenIssue[k] {
@@ -186,7 +213,12 @@ func ExploreScenario(sc *Scenario, opt Options) (*Stats, []Found, error) {
 						p[j] = r.Decisions[j].Chosen
 					}
 					p[i] = alt
-					stack = append(stack, item{prefix: p, ns: ns[:i+1]})
+					ni := item{prefix: p, ns: ns[:i+1], chunk: it.chunk}
+					if isRoot {
+						ni.chunk = level1/claimChunk + 1
+						level1++
+					}
+					stack = append(stack, ni)
 				}
 			}
 			if d.Chosen != 0 {
